@@ -603,9 +603,6 @@ def check_error_paths_and_falsy(chk, lab, kind, M, hist, spec):
         chk.count("objects_reconfigured_by_invalid_calls")
         chk.outcome("error_paths", (base, len(bad_calls)))
         return
-    # name / repr / M / K and valid rate calls are pure observers of the reported state
-    if public_state(m) != before:
-        chk.fail(("rates", base, "reported_state_changed_by_valid_calls"), case)
     # falsy SNR values: all of them are 0 dB
     for fn in RATE_FNS:
         want = float(np.asarray(ref[fn])[1])
